@@ -477,3 +477,13 @@ MUTANTS += [
     m("c01-index-type", ["C01"], M, "if any(not isinstance(i, numbers.Integral) for i in index):", "if all(not isinstance(i, numbers.Integral) for i in index):"),
     m("c01-contains-other", ["C01"], R, "            return other.pmin in self and other.pmax in self\n\n        return False", "            return other.pmin in self and other.pmax in self\n\n        return True"),
 ]
+
+MUTANTS += [
+    # ------------------------------------------------------------------ C07 wiring / dispatch
+    m("c07-sel-subregion-both-pmax", ["C07", "C14"], M, "                        sub_p_1 = subreg.pmin.copy().astype(", "                        sub_p_1 = subreg.pmax.copy().astype("),
+    m("c07-sel-plane-subregion-corner", ["C07", "C14"], M, "                            sub_p_1.append(subreg.pmin[j])\n", "                            sub_p_1.append(subreg.pmax[j])\n"),
+    m("c07-pad-data-mode", ["C07", "C04"], F, "padded_array = np.pad(self.array, padding_sequence, mode=mode, **kwargs)", "padded_array = np.pad(self.array, padding_sequence, **kwargs)"),
+    m("c07-sel-two-dims", ["C07"], M, "if len(args) > 1 or len(kwargs) > 1:", "if len(args) > 1 and len(kwargs) > 1:"),
+    m("c07-sel-range-length", ["C07"], M, "                if len(range_) != 2:\n", "                if len(range_) < 2:\n"),
+    m("c07-getitem-valid-dropped", ["C07", "C08"], F, "            valid=self.valid[tuple(slices)],\n", ""),
+]
